@@ -74,6 +74,15 @@ def lp_mechanism(ev: Optional[P.Event], want: Any, got: Any) -> str:
 
 
 def run_case(ctx: Ctx, case: Dict[str, Any]) -> None:  # noqa: C901
+    if "sequence" in case:
+        # several questions in one process, one after the other; a violation keeps the whole history for the replay
+        before = len(ctx.violations)
+        for sub in case["sequence"]:
+            run_case(ctx, sub)
+        for v in ctx.violations[before:]:
+            v["case"] = case
+        ctx.count("sequences")
+        return
     rec = recorder()
     rec.reset()
     rec.enabled = False
@@ -168,7 +177,33 @@ CORE = [
 ]
 
 
+EXPONENT_LIKE = [("y", "e1y"), ("x", "E2x"), ("b", "e1b"), ("o1", "e2o1")]
+
+
+def spelling_sequence(rng) -> Dict[str, Any]:
+    """Objectives whose texts differ only in white space or in the multiplication sign and still mean different
+    things: '3e1y' is 30*y, '3 e1y' and '3*e1y' are 3*e1y.  Asked one after the other on the same contract."""
+    plain, tricky = rng.choice(EXPONENT_LIKE)
+    ins, outs = ["i1"], [plain, tricky]
+    c = gen.rcontract(rng, ins, outs, "int", bounded=rng.random() < 0.7)
+    m = rng.choice([1, 2, 3])
+    digit = tricky[1]
+    scale = 10 ** int(digit)
+    sign = rng.choice(["", "-"])
+    f = -1 if sign else 1
+    asks = [("%s%d%s" % (sign, m, tricky), {plain: f * m * scale}),          # glued: a number with an exponent
+            ("%s%d %s" % (sign, m, tricky), {tricky: f * m}),
+            ("%s%d*%s" % (sign, m, tricky), {tricky: f * m}),
+            ("%s%d %s" % (sign, m * scale, plain), {plain: f * m * scale})]
+    rng.shuffle(asks)
+    mx = rng.random() < 0.5
+    return {"sequence": [{"contract": c, "simplify": True, "objective": coef, "expr": expr,
+                          "maximize": mx if rng.random() < 0.8 else not mx} for expr, coef in asks[: rng.randint(2, 4)]]}
+
+
 def gen_case(rng) -> Dict[str, Any]:
+    if rng.random() < 0.05:
+        return spelling_sequence(rng)
     style = rng.choice(["int", "int", "dyadic"])
     ins = ["i1", "i2"][: rng.randint(1, 2)]
     outs = ["o1", "o2", "o3"][: rng.randint(1, 3)]
